@@ -40,6 +40,20 @@ def mutable_path(v: object, path: str = "") -> str | None:
     return f"{path} ({type(v).__name__})"
 
 
+class _ChunkedSource:
+    """A raw stream: read(n) returns at most `chunk` bytes (like an unbuffered socket or pipe)."""
+
+    def __init__(self, data: bytes, chunk: int) -> None:
+        self._data, self._pos, self._chunk = data, 0, chunk
+
+    def read(self, n: int = -1) -> bytes:
+        if n is None or n < 0:
+            n = len(self._data) - self._pos
+        out = self._data[self._pos:self._pos + min(n, self._chunk)]
+        self._pos += len(out)
+        return out
+
+
 def check_class(res: Result, cls: type) -> None:
     cp = walk.class_path(cls)
     params = cls.__dataclass_params__
@@ -217,6 +231,17 @@ def c15_worker(res: Result, i: int, n: int) -> None:
                 else:
                     check_instance(res, cls, dec, lambda b=buf.getvalue(): entity_reader(cls)(io.BytesIO(b)), lambda: [], snap, ops, "decoded")
                     res.count("decoded_instances")
+            if k % 3 == 0 or k < nhuge:
+                # a raw, unbuffered stream hands out fewer bytes than asked for; kio may refuse that (BufferUnderflow), but if it
+                # does produce an entity, that entity must be a proper value object as well
+                try:
+                    raw = refcodec.encode_bytes(spec, tree)
+                    dec2 = entity_reader(cls)(_ChunkedSource(raw, rng.choice((1, 3, 7, 4096))))
+                except Exception:  # noqa: BLE001
+                    res.count("short_read_source_refused")
+                else:
+                    res.count("short_read_source_decoded")
+                    check_instance(res, cls, dec2, lambda b=raw: entity_reader(cls)(io.BytesIO(b)), lambda: [], snap, ops, "decoded from a short-reading source")
             if gen.is_nontrivial(spec, tree):
                 distinct.add(hashlib.sha256((cls.__module__ + cls.__name__).encode() + refcodec.encode_bytes(spec, tree)).digest()[:12])
             if res.counters["instances"] % 2003 == 1:
